@@ -78,6 +78,7 @@ class Ctx:
         self.seed = seed
         self.rng = random.Random((seed * 1000003) ^ int(hashlib.sha256(prop.encode()).hexdigest()[:8], 16))
         self.t0 = time.time()
+        self.t_start = self.t0
         self.evaluations = 0
         self.hashes = set()
         self.samples = []
@@ -216,7 +217,7 @@ class Ctx:
     def finish(self):
         for d in self._drivers:
             d.close()
-        wall = time.time() - self.t0
+        wall = time.time() - self.t_start
         rc = 0
         lines = []
         for fid, (f, n) in sorted(self.known_hits.items()):
